@@ -158,3 +158,98 @@ func HarnessC20SendError() {
 		}
 	}
 }
+
+// Several rejected recipients in one message: the error lists exactly the
+// rejected recipients, and its code, temporariness and enhanced status code
+// are those of the LAST rejection.
+func HarnessC20MultiRcpt() {
+	nr := 2 + svPick("rcpts", svParam("rcpts", 2)) // 2..3 recipients in the first message
+	esc := svPick("esc-advertised", 2) == 1
+	caps := []string{"8BITMIME"}
+	if esc {
+		caps = append(caps, "ENHANCEDSTATUSCODES")
+	}
+	s := hxNewSrv(caps)
+	s.failVerb = "RCPT"
+	s.symDigits = true
+	s.noDrop = true
+	s.textOf = func(c *hxCmd, ok bool) string {
+		if ok {
+			return "2.1.5 reply to " + c.mark + " fine"
+		}
+		// the enhanced status code carries the class of the reply code
+		return string([]byte{c.code[0]}) + ".1.1 reply to " + c.mark + " refused"
+	}
+	c := hxNewClient(s)
+	if err := c.DialWithContext(context.Background()); err != nil {
+		svAssert(false, "setup-dial")
+		return
+	}
+	msgs := []*Msg{hxTestMsg(0, nr, 0, EncodingQP), hxTestMsg(1, 1, 0, EncodingQP)}
+	err := c.Send(msgs...)
+	// what did the server reject, per message?
+	var rejected [2][]*hxCmd
+	owner := -1
+	for _, cm := range s.cmds {
+		switch cm.verb {
+		case "MAIL":
+			owner++
+		case "RCPT":
+			if owner >= 0 && owner < 2 && cm.code[0] != '2' {
+				rejected[owner] = append(rejected[owner], cm)
+			}
+		}
+	}
+	nfailed := 0
+	for i, m := range msgs {
+		rj := rejected[i]
+		if len(rj) == 0 {
+			svAssert(!m.HasSendError(), "C20 message without a rejected recipient carries an error")
+			continue
+		}
+		nfailed++
+		if len(rj) >= 2 {
+			svReach("two-rejections")
+		}
+		svAssert(m.HasSendError(), "C20 message with rejected recipients carries no error")
+		var se *SendError
+		if !errors.As(m.SendError(), &se) {
+			svAssert(false, "C20 Msg.SendError is not a *SendError")
+			continue
+		}
+		svAssert(se.Reason == ErrSMTPRcptTo, "C20 Reason does not name the failing step (RCPT)")
+		svAssert(len(se.rcpt) == len(rj), "C20 recipient list is not exactly the rejected recipients")
+		if len(se.rcpt) == len(rj) {
+			for k := range rj {
+				svAssert(se.rcpt[k] == hxPath([]byte(rj[k].line)), "C20 recipient list is not exactly the rejected recipients")
+			}
+		}
+		last := rj[len(rj)-1]
+		wantCode := int(last.code[0]-'0')*100 + int(last.code[1]-'0')*10 + int(last.code[2]-'0')
+		svAssert(se.ErrorCode() == wantCode, "C20 ErrorCode is not the code of the last rejection")
+		if se.IsTemp() {
+			svAssert(last.code[0] == '4', "C20 IsTemp true although the last rejection was 5yz")
+		} else {
+			svAssert(last.code[0] != '4', "C20 IsTemp false although the last rejection was 4yz")
+		}
+		got := se.EnhancedStatusCode()
+		if esc {
+			svAssert(got == string([]byte{last.code[0]})+".1.1", "C20 enhanced status code is not that of the last rejection")
+		} else {
+			svAssert(got == "", "C20 enhanced status code reported although ENHANCEDSTATUSCODES was not advertised")
+		}
+	}
+	if nfailed == 0 {
+		svAssert(err == nil, "C20 error although every reply was positive")
+		return
+	}
+	svAssert(err != nil, "C20 Send returned nil although a message failed")
+	if err != nil {
+		type multi interface{ Unwrap() []error }
+		if mu, ok := err.(multi); ok {
+			svAssert(len(mu.Unwrap()) == nfailed, "C20 joined error does not have one entry per failed message")
+		} else {
+			svAssert(false, "C20 Send error is not a joined error")
+		}
+	}
+}
